@@ -6,6 +6,7 @@ import (
 	"go/token"
 	"go/types"
 	"sort"
+	"strings"
 
 	"golang.org/x/tools/go/ssa"
 
@@ -30,6 +31,7 @@ func c19(c *Ctx) {
 	scriptDispatch(c, "C19.R6")
 	c19wrappers(c)
 	c19synchronous(c)
+	c19seed(c)
 }
 
 // c19storeUse (R5): the lock touches its store only through the two scripts. Any other command issued on
@@ -204,6 +206,14 @@ func c19go(c *Ctx) {
 	if f := c.fn(rule, redisPkg, "(*RedisLock).AcquireCtx"); f != nil {
 		ps := c.paths(rule, f, px.Config{})
 		c.forall(rule, redisPkg+".(*RedisLock).AcquireCtx", "the store is used only through one run of the lock script with keys [rl.key] and args [rl.id, lease ms]; lease = seconds·1000 + 500 computed in a 64-bit integer type; true only for reply \"OK\" with a nil error; a store error is returned", f, ps, func(p *px.Path) (bool, string) {
+			// (round 6) acquiring never frees: an error from the store says nothing about who holds the key — the caller
+			// may be the holder refreshing its lease, and "undoing" a failed acquire with the release script (which
+			// passes the owner test for exactly that caller) deletes its own live lease
+			for _, e := range p.All(px.KindIs(px.EvCall)) {
+				if e.Call.Static != nil && (e.Call.Static.Name() == "ReleaseCtx" || e.Call.Static.Name() == "Release") && strings.Contains(funcDisplay(e.Call.Static), "RedisLock") {
+					return false, "AcquireCtx releases the lock at " + c.P.Pos(e.Pos) + ": a holder whose refresh fails (timeout, cancelled context) deletes its own live lease, and the next contender acquires inside it"
+				}
+			}
 			sc := storeCalls(p)
 			if len(sc) != 1 || !run(sc[0]) {
 				return false, "the store is used other than by a single script run (a non-atomic sequence of commands)"
